@@ -165,7 +165,7 @@ Section Alias.
   (* compile with [fuel] nested alias instantiations left *)
   Fixpoint expander (fuel : nat) (aliases : atable) (body : option upat) : exc + bpat :=
     match fuel with
-    | O => inl ExTagConfiguration                    (* RecursionError -> ConfigurationError *)
+    | O => inl ExTemplateSyntax                      (* RecursionError -> TemplateSyntaxError "nested too deeply" (since fix F10) *)
     | S n =>
       match body with
       | None => inl ExTemplateSyntax                 (* the alias text does not parse *)
